@@ -55,20 +55,45 @@ func drawOptions(tape *sim.Tape) *Options {
 	o.HTML.KeepConditionalComments = tape.Draw(4) == 3
 	o.HTML.TemplateDelims = [][2]string{{}, {"{{", "}}"}, {"<%", "%>"}, {"<?", "?>"}}[tape.Draw(4)]
 	o.CSS.KeepCSS2, o.CSS.Precision = b(), prec()
-	o.JS.KeepVarNames, o.JS.Precision, o.JS.Version = b(), prec(), []int{0, 2015, 2019, 2022}[tape.Draw(4)]
+	// years, and small numbers (editions) which are legal values of an int option too
+	o.JS.KeepVarNames, o.JS.Precision, o.JS.Version = b(), prec(), []int{0, 2015, 2019, 2022, 6, 1, 11, 999}[tape.Draw(8)]
 	o.JSON.KeepNumbers, o.JSON.Precision = b(), prec()
 	o.SVG.KeepComments, o.SVG.Precision = b(), prec()
 	o.XML.KeepWhitespace = b()
 	return o
 }
 
-const EDirect = nEntries // direct call of the package minifier with the shared option struct
+const (
+	EDirect   = nEntries     // direct call of the package minifier with the shared option struct
+	EMimetype = nEntries + 1 // m.MinifyMimetype with a mimetype byte slice that the callers share
+)
 
-var c13Entries = []int{EPlain, EBytes, EString, EReader, EWriter, EMatch, ERespWriter, EDirect}
+var c13Entries = []int{EPlain, EBytes, EString, EReader, EWriter, EMatch, ERespWriter, EDirect, EMimetype}
+
+// mimetype slices shared by all tasks of a run, as a program that keeps them in package
+// level variables does; the mixed-case ones are not registered (the call must fail with the
+// not-exist error and leave the slice alone)
+var sharedMimetypes = map[string][][]byte{}
+
+func sharedMimetype(mt string, variant int) []byte {
+	if sharedMimetypes[mt] == nil {
+		up := []byte(mt)
+		for i := range up {
+			if i%2 == 0 && up[i] >= 'a' && up[i] <= 'z' {
+				up[i] -= 32
+			}
+		}
+		sharedMimetypes[mt] = [][]byte{[]byte(mt), up}
+	}
+	return sharedMimetypes[mt][variant%2]
+}
 
 func entryName(e int) string {
 	if e == EDirect {
 		return "pkg.Minifier.Minify"
+	}
+	if e == EMimetype {
+		return "MinifyMimetype"
 	}
 	return entryNames[e]
 }
@@ -322,8 +347,16 @@ func c13Case(env *Env, tape *sim.Tape) *CaseOut {
 			if entry == EDirect {
 				op.Direct = opts.direct(doc.MT)
 			}
+			ref := c13Reference(opts, optsKey, di, doc, siteURL)
+			if entry == EMimetype {
+				variant := tape.Draw(3) / 2 // mostly the registered spelling
+				op.Mimetype = sharedMimetype(doc.MT, variant)
+				if variant == 1 {
+					ref = &plainRef{Err: minify.ErrNotExist}
+				}
+			}
 			ops = append(ops, op)
-			all = append(all, &c13Op{Op: op, di: di, ref: c13Reference(opts, optsKey, di, doc, siteURL)})
+			all = append(all, &c13Op{Op: op, di: di, ref: ref})
 		}
 		tasks = append(tasks, ops)
 	}
@@ -398,6 +431,19 @@ func c13Case(env *Env, tape *sim.Tape) *CaseOut {
 	}
 	if st.Leak != "" {
 		return fail("goroutine-left-blocked", "bubble", st.Leak)
+	}
+	for mt, vs := range sharedMimetypes {
+		up := []byte(mt)
+		for i := range up {
+			if i%2 == 0 && up[i] >= 'a' && up[i] <= 'z' {
+				up[i] -= 32
+			}
+		}
+		if string(vs[0]) != mt || !bytes.Equal(vs[1], up) {
+			w0, w1 := string(vs[0]), string(vs[1])
+			delete(sharedMimetypes, mt)
+			return fail("input-mutated", "MinifyMimetype", fmt.Sprintf("the mimetype slices handed to MinifyMimetype read %q / %q after the calls, they were %q / %q", w0, w1, mt, up))
+		}
 	}
 	if !reflect.DeepEqual(before, opts) {
 		return fail("options-mutated", "shared-option-struct", fmt.Sprintf("before: %s after: %s", before, opts))
